@@ -281,7 +281,7 @@ def load_csv(
             ))
             if not return_unknown_fields and column_names != first_line_column_names:
                 dict_field_values = n0dict({
-                    key: dict_field_values.get(key) # If optional column doesn't exist, then it will be None
+                    key: dict.get(dict_field_values, key) # If optional column doesn't exist, then it will be None (plain lookup: a column name is not an xpath)
                     for key in column_names
                 })
             if return_original_line:
